@@ -11,6 +11,7 @@ assumed interfaces) plus directives that pull the *real* items out of the reposi
   //@+ <proof text>           ghost code placed on its own line before/after that line
   //@loop "<text of the loop header>"
   //@+ <invariant/decreases>  placed between the loop header and its body
+  //@subst "<A>" "<B>"        (T6) textual substitution in all functions extracted after it - listed in evidence
   //@drop "<text>"            (T6) replace an out-of-scope statement line by nothing - listed in evidence
 
 What extraction changes (everything else is byte-identical to the repository text):
@@ -73,8 +74,11 @@ def transform(text, is_struct=False):
                 j += 1
             if j < n and toks[j].text == "[":
                 k = match_close(toks, j)
+                attr = "".join(x.text for x in toks[j + 1:k])
+                if re.match(r"\s*derive\b", attr) and re.search(r"\bCopy\b", attr):
+                    # T1 exception: a Copy type stays Copy (Verus derives the matching Clone/Copy specification)
+                    out.append("#[derive(Clone, Copy)]")
                 i = k + 1
-                # swallow one trailing newline's worth of whitespace
                 continue
         # T2 / T3: macros
         if t.kind == "ident" and i + 1 < n and toks[i + 1].text == "!":
@@ -180,10 +184,10 @@ def publicise_fields(text):
 
 def make_pub(text, kw):
     """T4: make the item itself `pub` (no-op if it already is)."""
-    s = text.lstrip()
-    if s.startswith("pub "):
+    m = re.search(r"(^|\n)(\s*)((pub\s+)?)(%s)\b" % re.escape(kw), text)
+    if not m or m.group(3):
         return text
-    return text[:len(text) - len(s)] + "pub " + s
+    return text[:m.start(5)] + "pub " + text[m.start(5):]
 
 
 class Unit:
@@ -193,6 +197,7 @@ class Unit:
         self.functions = []     # dict(id, file, line_from, line_to, sha256, gen_from, gen_to, twin)
         self.dropped = []
         self.skipped_hints = []
+        self.substs = []      # T6: textual substitutions applied to extracted function text (listed in evidence)
         self.sources = {}
 
     def src(self, rel):
@@ -290,6 +295,11 @@ class Unit:
             i += 1
             if d.startswith("src "):
                 rel = d[4:].strip()
+            elif d.startswith("subst "):
+                m = re.match(r'subst\s+"(.*)"\s+"(.*)"$', d)
+                if not m:
+                    raise ExtractError("bad subst directive: " + d)
+                self.substs.append((m.group(1), m.group(2)))
             elif d.startswith("item "):
                 _, kind, name = d.split()[:3]
                 raw, l0, l1 = self.slice_item(rel, kind, name)
@@ -310,6 +320,9 @@ class Unit:
                 sig, body, raw, l0, l1 = self.slice_fn(rel, spec)
                 sig = transform(sig).rstrip()
                 body = transform(body)
+                for a, b in self.substs:
+                    body = body.replace(a, b)
+                    sig = sig.replace(a, b)
                 if not re.match(r"\s*pub\b", sig):
                     sig = "pub " + sig.lstrip()
                 if "ret" in opts:
@@ -450,6 +463,7 @@ def run_unit(name):
     res["functions"] = [dict(id=f["id"], sha256=f["sha256"], back_end="verus") for f in U.functions]
     res["dropped"] = U.dropped
     res["skipped_hints"] = U.skipped_hints
+    res["substitutions"] = ["%s -> %s" % ab for ab in U.substs]
     if rc is None:
         res.update(status="undecided", reason="verus timed out")
         return res
